@@ -1226,6 +1226,13 @@ class Walker:
             base_ = H.strip(mc_["recv"])
             while H.is_mcall(base_) and H.mcall(base_)["name"] in ("filter", "rev", "skip", "take", "step_by", "skip_while", "take_while", "into_iter", "by_ref"):
                 base_ = H.strip(H.mcall(base_)["recv"])
+            if H.is_mcall(base_) and H.mcall(base_)["name"] == "enumerate" and mc_["args"]:
+                # `.enumerate()` over something of bounded length: the first tuple component is an index below that length
+                lb_ = self.r.len_bound(H.mcall(base_)["recv"], env, self.seq)
+                cl_ = H.strip(mc_["args"][0])
+                if lb_ is not None and lb_ >= 1 and H.tag(cl_) == "closure":
+                    self.closure_hint[id(cl_)] = ("tuple0", 0, lb_ - 1)
+                    self._keep.append(cl_)
             if H.tag(base_) == "struct" and base_[1].split("<")[0].endswith("::Range") and mc_["args"]:
                 f_ = dict((a, b) for a, b in base_[2])
                 lo_, hi_ = self.r.rng(f_.get("start"), env, self.seq), self.r.rng(f_.get("end"), env, self.seq)
@@ -1449,10 +1456,19 @@ class Walker:
                 while H.tag(pp_) in ("pref", "pderef"):
                     pp_ = pp_[1]
                 if H.tag(pp_) == "bind":
-                    if k_ == 0 and hint is not None:
+                    if k_ == 0 and hint is not None and hint[0] != "tuple0":
                         e2.set(pp_[1], ("range", hint[0], hint[1]), self.seq)  # called with the elements of an integer range
                     else:
                         e2.set(pp_[1], ("type", pp_[4]), self.seq)
+                elif H.tag(pp_) == "ptup":
+                    for j_, q_ in enumerate(pp_[1]):
+                        while H.tag(q_) in ("pref", "pderef"):
+                            q_ = q_[1]
+                        if H.tag(q_) == "bind":
+                            if k_ == 0 and j_ == 0 and hint is not None and hint[0] == "tuple0":
+                                e2.set(q_[1], ("range", hint[1], hint[2]), self.seq)
+                            else:
+                                e2.set(q_[1], ("type", q_[4]), self.seq)
             self.walk(n[3], e2, loops)
             self.loop_entry(n, env)
             return
